@@ -149,6 +149,16 @@ func init() {
 					}
 					run(c, "origin.placements", rp, cl, &f)
 				}
+				// origins that do not parse as a URL at all, whose TEXT nevertheless ends with "." + the RP host (or is the RP host after a
+				// dot): an invalid escape, a port that is not a number, an unclosed bracket, a leading blank, a control character. An origin
+				// that cannot be parsed has no host: never acceptable
+				if !strings.ContainsAny(h, " :") {
+					for _, cl := range []string{"https://evil.org/%zz." + h, "https://evil.org:port." + h, "https://evil.org\x7f." + h, "http://[evil." + h, " https://evil.org/." + h,
+						"https://evil.org/%." + h, "https://evil.org:80a." + h, "https://%zz." + h, "https://evil.org\x00." + h, "https://evil.org/\n." + h, "http://[::1." + h, "://." + h, "%zz." + h,
+						"https://evil.org:-1." + h, "https://a b." + h} {
+						run(c, "origin.placements", rp, cl, &f)
+					}
+				}
 				// the RP host in another letter case, and with the two non-ASCII characters that Unicode case folding equates with ASCII letters
 				// (U+212A KELVIN SIGN ~ k, U+017F LONG S ~ s): other hosts, never acceptable
 				if !strings.ContainsAny(h, " :") && strings.ToUpper(h) != h {
